@@ -515,7 +515,13 @@ impl Installer for Inst {
             if let Some(a) = ans {
                 if let Some(obs) = observer {
                     let ps: Vec<f32> = a["progress"].as_array().unwrap().iter().map(|p| f32::from_bits(p.as_u64().unwrap() as u32)).collect();
-                    if a["concurrent"] == true {
+                    if a["forget"] == true {
+                        // an installer that does not wait for its reports to be taken: each is handed over (the first poll
+                        // of a report puts the value into the channel) and abandoned; the install returns at once
+                        for p in ps {
+                            let _ = obs.receive_progress(None, p, None, None).now_or_never();
+                        }
+                    } else if a["concurrent"] == true {
                         // an installer with several components reporting at once: all reports are in flight together
                         futures::future::join_all(ps.iter().map(|p| obs.receive_progress(None, *p, None, None))).await;
                     } else {
@@ -1051,8 +1057,29 @@ pub fn keys_of(cup: &Value) -> Option<PublicKeys> {
     })
 }
 
-/// Runs the real state machine on the scripted environment `c`.
+/// Runs the real state machine on the scripted environment `c`.  When the script makes storage operations fail, the
+/// run is repeated with a storage that works and the requests sent and events announced are compared (C14: "identical
+/// to those of a run in which storage works"); a difference is a violation only the harness can see.
 pub fn run_sm(c: &Value) -> RunResult {
+    let mut r = run_sm_once(c);
+    if !arr(c, "faults").is_empty() && r.violation.is_none() && !r.hang && r.panic.is_none() {
+        let mut c2 = c.clone();
+        c2["faults"] = json!([]);
+        let r2 = run_sm_once(&c2);
+        if !r2.hang && r2.panic.is_none() {
+            let low = |t: &Vec<String>| -> Vec<String> { t.iter().filter(|a| a.starts_with("AHttp ") || a.starts_with("AEvent ")).cloned().collect() };
+            let (a, b) = (low(&r.trace), low(&r2.trace));
+            if a != b {
+                let i = a.iter().zip(b.iter()).position(|(x, y)| x != y).unwrap_or(a.len().min(b.len()));
+                let cut = |s: Option<&String>| s.map(|x| x.chars().take(160).collect::<String>()).unwrap_or_else(|| "<nothing>".to_string());
+                r.violation = Some(format!("storage failures changed the requests sent or the events announced (action #{} of {} / {}): with failures {} ; with a working storage {}",
+                                           i, a.len(), b.len(), cut(a.get(i)), cut(b.get(i))));
+            }
+        }
+    }
+    r
+}
+fn run_sm_once(c: &Value) -> RunResult {
     install_sink();
     let storage: Vec<(String, SVal)> = arr(c, "storage").iter().map(|kv| (strv(&kv[0]), sval_of(&kv[1]))).collect();
     let clock: Vec<(i128, i128)> = arr(c, "clock")
